@@ -92,7 +92,7 @@ let exn_name = function
   | ExBadScript -> "bad" | ExUB -> "ub" | ExOutOfFuel -> "fuel" | ExWrap -> "wrap"
 
 let print_event = function
-  | EvSlot (_, l, args) ->
+  | EvSlot (_, _, l, args) ->
     Printf.printf "slot %d%s\n" (int_of_nat l) (String.concat "" (List.map (fun z -> " " ^ string_of_int (int_of_z z)) args))
   | EvAdded e -> Printf.printf "added %d\n" (int_of_nat e)
   | EvBool b -> Printf.printf "bool %d\n" (if b then 1 else 0)
